@@ -10,7 +10,22 @@ impl Clone for SocketAddr { #[verifier::external_body] fn clone(&self) -> (r: Se
 impl Copy for SocketAddr {}
 impl Clone for IpAddr { #[verifier::external_body] fn clone(&self) -> (r: Self) ensures r == *self { unimplemented!() } }
 impl Copy for IpAddr {}
+#[derive(Clone, Copy)]
 pub struct Instant { pub t: u64 }
+
+impl PartialEq for Instant { fn eq(&self, o: &Instant) -> (r: bool) ensures r == (self.t == o.t) { self.t == o.t } }
+impl vstd::std_specs::cmp::PartialEqSpecImpl for Instant {
+    open spec fn obeys_eq_spec() -> bool { true }
+    open spec fn eq_spec(&self, o: &Instant) -> bool { self.t == o.t }
+}
+impl PartialOrd for Instant {
+    fn partial_cmp(&self, o: &Instant) -> (r: Option<core::cmp::Ordering>) { if self.t < o.t { Some(core::cmp::Ordering::Less) } else if self.t == o.t { Some(core::cmp::Ordering::Equal) } else { Some(core::cmp::Ordering::Greater) } }
+}
+impl vstd::std_specs::cmp::PartialOrdSpecImpl for Instant {
+    open spec fn obeys_partial_cmp_spec() -> bool { true }
+    open spec fn partial_cmp_spec(&self, o: &Instant) -> Option<core::cmp::Ordering> { if self.t < o.t { Some(core::cmp::Ordering::Less) } else if self.t == o.t { Some(core::cmp::Ordering::Equal) } else { Some(core::cmp::Ordering::Greater) } }
+}
+
 impl Instant {
     #[verifier::external_body] pub fn now() -> (r: Instant) { unimplemented!() }
     // `a <= b` on instants (rule R: comparison operator on a shimmed type)
